@@ -37,7 +37,7 @@ func c13Text(v int, withInclude bool) string {
 
 type c13Msg struct {
 	Doc     int    `json:"doc"`
-	Version int    `json:"version"` // 0 = didOpen
+	Version int    `json:"version"`           // 0 = didOpen
 	Special string `json:"special,omitempty"` // "", "empty", "blank", "first" (the text of version 0 again)
 }
 
